@@ -438,6 +438,89 @@ def h_h1_to_h2(X, nfields):
     X.reach("answered")
 
 
+H2H2_REQUESTS = {"get": (None, None), "post": (b"abc", None), "post-trailers": (b"abc", [(b"x-qt", b"q")]), "empty-body-trailers": (b"", [(b"x-qt", b"q")])}
+H2H2_RESPONSES = dict(H2_RESPONSES, **{
+    # gRPC-style: HEADERS, then a trailers block, no DATA at all / only empty DATA
+    "trailers-only": ([(b":status", b"200"), (b"content-type", b"application/grpc")], b"", [(b"grpc-status", b"5")]),
+    "body-and-2-trailers": ([(b":status", b"200")], b"resp", [(b"x-rt", b"t"), (b"x-rt2", b"u")]),
+})
+
+
+def h_h2_to_h2(X):
+    """same version on both hops (h2 client, h2 server): nothing needs translating, so everything must arrive:
+    pseudo-headers, fields, body, and trailers in both directions"""
+    qname = X.choose("request", list(H2H2_REQUESTS))
+    qbody, qtr = H2H2_REQUESTS[qname]
+    stream = X.boolean("stream_bodies")
+    ctx = sansio.make_context(OPTS)
+    ctx.client.alpn = b"h2"
+    d = sansio.Driver(http.HttpLayer(ctx, HTTPMode.regular), ctx)
+
+    def on_open(cmd):
+        cmd.connection.alpn = b"h2"
+        return None
+
+    def on_hook(h):
+        if stream and h.name == "requestheaders":
+            h.args()[0].request.stream = True
+        if stream and h.name == "responseheaders":
+            h.args()[0].response.stream = True
+        return True
+
+    d.on_open, d.on_hook = on_open, on_hook
+    d.start()
+    cli = _mk_client_peer()
+    cli.initiate_connection()
+    d.data(ctx.client, cli.data_to_send())
+    cli.receive_data(d.sent_to(ctx.client))
+    seen = len(d.sent_to(ctx.client))
+    block = [(b":method", b"GET" if qbody is None else b"POST"), (b":scheme", b"http"), (b":path", b"/p"), (b":authority", b"example.com"), (b"x-q", b"v")]
+    cli.send_headers(1, block, end_stream=qbody is None)
+    if qbody is not None:
+        cli.send_data(1, qbody, end_stream=qtr is None)
+        if qtr is not None:
+            cli.send_headers(1, qtr, end_stream=True)
+    d.data(ctx.client, cli.data_to_send())
+    X.check(len(d.opened) == 1, "C06/h2-to-h2/not-forwarded", f"request {qname}: {len(d.opened)} upstream connections")
+    server = d.opened[0]
+    srv = h2.connection.H2Connection(h2.config.H2Configuration(client_side=False, header_encoding=False, validate_inbound_headers=True, normalize_inbound_headers=False))
+    srv.initiate_connection()
+    try:
+        r = _collect(srv.receive_data(d.sent_to(server)))
+    except h2.exceptions.ProtocolError as e:
+        X.fail("C06/h2-to-h2/invalid-h2", f"request {qname}: the h2 server rejects what mitmproxy sent: {e!r}")
+    what = f"h2 request {qname} (stream={stream}) -> h2 server saw {r}"
+    X.check(r["headers"] is not None and r["ended"], "C06/h2-to-h2/request-not-delivered", what)
+    X.check([(n, v) for n, v in r["headers"] if n != b"host"] == block, "C06/h2-to-h2/request-fields-changed", what)
+    X.check(r["data"] == (qbody or b""), "C06/h2-to-h2/request-body-changed", what)
+    X.check(r["trailers"] == qtr, "C06/h2-to-h2/request-trailers-lost", f"{what}: trailers sent {qtr}")
+    X.reach("forwarded")
+    if qtr:
+        X.reach("request-trailers")
+    rname = X.choose("response", list(H2H2_RESPONSES))
+    rh, rbody, rtr = H2H2_RESPONSES[rname]
+    d.data(server, srv.data_to_send())
+    srv.send_headers(1, rh, end_stream=rbody is None)
+    if rbody is not None:
+        if rbody or rtr is None:
+            srv.send_data(1, rbody, end_stream=rtr is None)
+        if rtr is not None:
+            srv.send_headers(1, rtr, end_stream=True)
+    d.data(server, srv.data_to_send())
+    try:
+        g = _collect(cli.receive_data(d.sent_to(ctx.client)[seen:]))
+    except h2.exceptions.ProtocolError as e:
+        X.fail("C06/h2-to-h2/invalid-h2-response", f"response {rname}: the h2 client rejects what mitmproxy sent: {e!r}")
+    what = f"h2 response {rname} (stream={stream}) after request {qname} -> h2 client saw {g}"
+    X.check(g["headers"] is not None and g["ended"] and g["reset"] is None, "C06/h2-to-h2/response-not-delivered", what)
+    X.check(g["headers"] == rh, "C06/h2-to-h2/response-fields-changed", f"{what}: sent {rh}")
+    X.check(g["data"] == (rbody or b""), "C06/h2-to-h2/response-body-changed", what)
+    X.check(g["trailers"] == rtr, "C06/h2-to-h2/response-trailers-lost", f"{what}: trailers sent {rtr}")
+    if rtr:
+        X.reach("response-trailers")
+    X.reach("answered")
+
+
 def obligations(tier):
     n = 2 if tier == "quick" else 3
     n1 = 2 if tier == "quick" else 3
@@ -454,4 +537,7 @@ def obligations(tier):
         Symx("h1-to-h2", lambda X: h_h1_to_h2(X, n1),
              bounds=f"{len(H1_REQ_SHAPES)} HTTP/1 request shapes x <= {n1} fields from a {len(H1_LINES)}-entry menu x {len(H2_RESPONSES)} h2 answers (incl. trailers)",
              encoded=ENCODED, must_reach=["forwarded", "answered"], parallel_depth=3),
+        Symx("h2-to-h2", h_h2_to_h2,
+             bounds=f"h2 client and h2 server: request in {list(H2H2_REQUESTS)} x response in {list(H2H2_RESPONSES)} x bodies buffered / streamed",
+             encoded=ENCODED, must_reach=["forwarded", "answered", "request-trailers", "response-trailers"]),
     ]
